@@ -185,3 +185,43 @@ func HC18_createType() {
 	vfAssert(!rt, "C18/analysis-of-any-type-shape-no-runtime-error")
 	_ = panicked
 }
+
+// HC18_recursiveDeclarations: the analysis of a self-referential declaration — through a slice, an
+// array of pointers, a map, nested maps, a map of slices, a struct field — returns (a node or a
+// diagnostic); it never recurses without bound (which natively is a fatal stack overflow, for every target).
+func HC18_recursiveDeclarations() {
+	lib := types.NewPackage("other.org/lib", "lib")
+	root := &packages.Package{ID: "example.com/mod/p", PkgPath: "example.com/mod/p", Types: types.NewPackage("example.com/mod/p", "p"),
+		Imports: map[string]*packages.Package{}}
+	self := types.NewNamed(types.NewTypeName(0, lib, "Self", nil), nil, nil)
+	str := types.Typ[types.String]
+	switch vfChoice("shape", 7) {
+	case 0:
+		self.SetUnderlying(types.NewSlice(self))
+	case 1:
+		self.SetUnderlying(types.NewArray(types.NewPointer(self), 2))
+	case 2:
+		self.SetUnderlying(types.NewMap(str, self))
+	case 3:
+		self.SetUnderlying(types.NewMap(str, types.NewMap(str, self)))
+	case 4:
+		self.SetUnderlying(types.NewMap(str, types.NewSlice(self)))
+	case 5:
+		self.SetUnderlying(types.NewSlice(types.NewMap(str, self)))
+	default:
+		self.SetUnderlying(types.NewStruct([]*types.Var{types.NewField(0, lib, "Next", types.NewPointer(self), false), types.NewField(0, lib, "Kids", types.NewMap(str, self), false)}, nil))
+	}
+	ana := &Analysis{Types: map[types.Type]Type{}, Pkg: root}
+	ctx := context{rootPackage: root, enums: enumsMap{}, unions: unionsMap{}}
+	var rt bool
+	var msg string
+	terminated := vfTerminates(func() {
+		_, rt, msg = vfCatch(func() { ana.handleType(self, ctx) })
+	})
+	vfAssert(terminated, "C18/analysis-of-a-recursive-declaration-terminates")
+	if !terminated {
+		return
+	}
+	vfObserve("outcome", msg)
+	vfAssert(!rt, "C18/analysis-no-runtime-error")
+}
